@@ -73,11 +73,19 @@ def run(ctx):
                 continue
             npaths += 1
             seq = []
-            for e in v.path_events(p_):
+            pevs = v.path_events(p_)
+            for k_, e in enumerate(pevs):
                 if e.kind == 'assign' and e.lhs[0] == 'field' and e.lhs[2] == cur:
                     rhs = e.rhs
-                    while rhs[0] in ('cast', 'conv'):
-                        rhs = rhs[2]
+                    for _ in range(3):
+                        while rhs[0] in ('cast', 'conv'):
+                            rhs = rhs[2]
+                        if rhs[0] == 'var' and rhs[1] == 'local':
+                            ds = [x for x in pevs[:k_] if x.kind == 'assign' and x.lhs == rhs]
+                            if len(ds) == 1:
+                                rhs = ds[0].rhs
+                                continue
+                        break
                     seq.append((e.op, rhs[0] == 'call' and rhs[1] == ELE + '::get_concurrency'))
             ws.add(tuple(seq))
         ws = sorted(ws)
